@@ -124,7 +124,7 @@ def _seal_raw(h, first, inner, integ_id, sk_a, sk_e, iv, geom=None, r=None, oute
         body = b'\0' * r.randint(0, icv - 1)
     pre = R.enc_chain(list(outer), last_next=R.P_SK) if outer else b''
     total = 28 + len(pre) + 4 + len(body)
-    flags = (8 if h['I'] else 0) | (32 if h['R'] else 0)
+    flags = (8 if h['I'] else 0) | (32 if h['R'] else 0) | h.get('flags_extra', 0)        # (reserved / version bits: ignored on receipt)
     msg = bytearray(R.enc_header(h['spi_i'], h['spi_r'], outer[0]['type'] if outer else R.P_SK, h['exch'], flags, h['id'], total) + pre +
                     struct.pack('>BBH', first, 0, 4 + len(body)) + body)
     if len(msg) >= icv and geom != 'shorter_than_icv':
